@@ -22,6 +22,17 @@ def certsP : P (List Cert) := do
   let n ← P.nat
   P.rep (do let i ← P.nat; let l ← optVecP; let b ← optVecP; pure ⟨i, l, b⟩) n
 
+/-- Like `Verdict.render`, but a line on which a property clause fails AND the implementation deviates from the model
+    of the (as-found) code gets its own clause name: the model reproduces the known defects exactly, so such a line is
+    new behaviour and must not be absorbed by a known finding of the plain clause. -/
+def renderV (v : Verdict) : String :=
+  match v.fails, v.diffs with
+  | f :: _, d :: _ =>
+    match f.splitOn " " with
+    | comp :: kind :: rest => s!"fail {comp} {kind}_and_model_mismatch {" ".intercalate rest} || {d}"
+    | _ => "fail " ++ f
+  | _, _ => v.render
+
 def isPermB (a b : List Vec) : Bool :=
   a.length == b.length && a.all (fun x => a.count x == b.count x)
 
@@ -44,7 +55,7 @@ structure Acc where
 
 def Acc.render (a : Acc) : String :=
   match a.v.fails with
-  | f :: _ => "fail " ++ f
+  | _ :: _ => if a.illcond then a.v.render else renderV a.v
   | [] =>
     match a.v.diffs with
       | d :: _ => if a.illcond then "skip ill_conditioned" else "diff " ++ d
@@ -297,16 +308,16 @@ def lpi : P String := do
     -- optimum clause, whenever a stored point shares the query's support
     let (lo, hi) := lpBounds i cv dual primal
     let tolV := ((i.S + i.N + 1 : Nat) : Rat) * Gen.equalToleranceSmall * M + tiny M
-    if k == 0 then return v.render else
+    if k == 0 then return renderV v else
     -- a coordinate in (0, 1e-6] is "zero" for the library but not for the exact LP: the optimum clause is then a
     -- statement about a tolerance-sized discontinuity of the input, not decided here
-    if tolZero i then return (if v.fails.isEmpty then "skip tolerance_sized_coordinate" else v.render) else
+    if tolZero i then return (if v.fails.isEmpty then "skip tolerance_sized_coordinate" else renderV v) else
     match lo, hi with
     | some lo, some hi =>
       let v := v.failIf (decide (value + tolV < lo)) s!"{comp} value_below_lp_optimum value={ratStr value} dual_bound={ratStr lo}"
       let v := v.failIf (decide (hi + tolV < value)) s!"{comp} value_above_lp_optimum value={ratStr value} primal_bound={ratStr hi}"
-      if v.fails.isEmpty && decide (tolV < hi - lo) then return "skip lp_certificate_gap" else return v.render
-    | _, _ => if v.fails.isEmpty then return "skip lp_certificate_missing" else return v.render
+      if v.fails.isEmpty && decide (tolV < hi - lo) then return "skip lp_certificate_gap" else return renderV v
+    | _, _ => if v.fails.isEmpty then return "skip lp_certificate_missing" else return renderV v
   | _, _ => return s!"fail {comp} value_nan value={out.value}"
 
 /-- `saw S A N point ubQ pts vals | status value w dual primal` -/
@@ -341,13 +352,13 @@ def saw : P String := do
     let tolV := ((i.S + i.N + 1 : Nat) : Rat) * Gen.equalToleranceSmall * M + tiny M
     let v := v.failIf (decide (dot i.point cv + tolV < value)) s!"{comp} value_above_corner_bound value={ratStr value}"
     let (lo, _) := lpBounds i cv dual primal
-    if tolZero i then return (if v.fails.isEmpty then "skip tolerance_sized_coordinate" else v.render) else
+    if tolZero i then return (if v.fails.isEmpty then "skip tolerance_sized_coordinate" else renderV v) else
     match lo with
     | some lo =>
       let floor := minQ lo (basicV i.point i.ubQ i.A)
       let v := v.failIf (decide (value + tolV < floor)) s!"{comp} value_below_lower_bound value={ratStr value} floor={ratStr floor}"
-      return v.render
-    | none => if v.fails.isEmpty then return "skip lp_certificate_missing" else return v.render
+      return renderV v
+    | none => if v.fails.isEmpty then return "skip lp_certificate_missing" else return renderV v
   | _, _ => return s!"fail {comp} value_nan value={out.value}"
 
 def handle (toks : List String) : String :=
